@@ -149,6 +149,20 @@ func (u *Unit) rangeFacts(st *State, s string, t types.Type, depth int) string {
 		fs := []string{"(<= 0 " + ref + ")", "(< " + ref + " " + st.alloc + ")", c.idxLe(z, off), c.idxLe(z, ln), c.idxLe(ln, cp), c.idxLe(off, big62), c.idxLe(cp, big62),
 			implies(eq(ref, "0"), eq(cp, z))}
 		return and(fs...)
+	case *types.Array:
+		if bits, signed, ok := intInfo(ut.Elem()); ok && !c.bv {
+			if ut.Len() <= 64 {
+				var fs []string
+				for i := int64(0); i < ut.Len(); i++ {
+					fs = append(fs, c.inRange(fmt.Sprintf("(select %s %s)", s, c.idxConst(i)), bits, signed))
+				}
+				return and(fs...)
+			}
+			c.n++
+			k := fmt.Sprintf("k_q%d", c.n)
+			return fmt.Sprintf("(forall ((%s Int)) %s)", k, c.inRange(fmt.Sprintf("(select %s %s)", s, k), bits, signed))
+		}
+		return "true"
 	case *types.Pointer, *types.Map, *types.Chan:
 		return and("(<= 0 "+s+")", "(< "+s+" "+st.alloc+")")
 	case *types.Signature:
